@@ -84,7 +84,10 @@ var deferPart = pbt.Part[deferCase]{Name: "defer-reconstruction-and-stream", Qui
 	Gen: func(t *rapid.T) deferCase {
 		// @defer below a list of lists never delivers (finding C10-defer-under-nested-list)
 		l := fedgen.Gen(t, fedgen.Options{Allow: allowFromEnv(), NoRequires: !allowFromEnv()["requires"],
-			Exclude: map[string]bool{"nested-value-list": !allowFromEnv()["defer-under-nested-list"]}})
+			Exclude: map[string]bool{"nested-value-list": !allowFromEnv()["defer-under-nested-list"],
+				// nested @defer inside the value object of a nested key cannot be planned (finding
+				// C10-nested-defer-inside-key-object-unplannable)
+				"nested-key": !allowFromEnv()["nested-key"]}})
 		super, err := sim.LoadSuper(l.Super)
 		if err != nil {
 			t.Fatalf("generator produced an invalid supergraph: %v", err)
